@@ -18,7 +18,24 @@ def one_parse(req):
             _SHARED_PARSER.append(LatexGeneralNodesParser())
         parser = _SHARED_PARSER[0]
     try:
-        nl = parse(req['s'], ctx=ctx, tolerant=req['tolerant'], parser=parser)
+        if req.get('reuse_walker'):
+            # "whatever other inputs were parsed before ...": the walker object itself has been used before -- a complete
+            # parse of the same input, position lookups, legacy token reads -- and is then asked again
+            from vpl.util import walker
+            from pylatexenc.latexnodes.parsers import LatexGeneralNodesParser
+            lw = walker(req['s'], ctx, req['tolerant'], psopts=req.get('psopts'))
+            try:
+                lw.parse_content(LatexGeneralNodesParser())
+            except LatexWalkerParseError:
+                pass
+            lw.pos_to_lineno_colno(len(req['s']))
+            try:
+                lw.get_token(len(req['s']) // 2)
+            except Exception:
+                pass
+            nl, _ = lw.parse_content(parser if parser is not None else LatexGeneralNodesParser())
+        else:
+            nl = parse(req['s'], ctx=ctx, tolerant=req['tolerant'], parser=parser, psopts=req.get('psopts'))
     except LatexWalkerParseError as e:
         # the whole error report is part of the result: position, line/column, message, and the open blocks it lists
         import re
